@@ -62,6 +62,10 @@ TEMPLATES = {
     "default-value-same-name": "lambda e: e.jets.Select(lambda j2, {B}={N}: (j2.pt, {B}))",
     "kwdefault-value-same-name": "lambda e: e.jets.Select(lambda j2, *, {B}={N}: (j2.pt, {B}))",
     "walrus-target": "lambda e: (({B} := e.a) + {B}, 1)",
+    # a method of the captured value itself is called: the value is still frozen (the call stays a call)
+    "method-of-number": "lambda e: (e.a, {N}.conjugate())",
+    "method-of-number-nested": "lambda e: e.jets.Select(lambda j: (j.pt, {N}.conjugate() + 1))",
+    "method-of-text": "lambda e: (e.a, {N}.upper(), {N}.startswith({N}))",
     # an inner binder re-uses the spelling of an outer one; the outer one is read (bare) AFTER the inner scope closed
     "shadow-then-outer-bare": "lambda {B}: ({B}.jets.Select(lambda {B}: {B}.pt), {B})",
     "shadow-comp-then-outer-bare": "lambda {B}: ([{B}.pt for {B} in {B}.jets], {B})",
@@ -181,6 +185,10 @@ class C04(Check):
                             if tname == "keyword-name" and name not in ("t", "v", "j"):
                                 continue
                             if tname == "attribute-name" and name in ("v", "j"):
+                                continue
+                            if tname.startswith("method-of-number") and vname not in ("int", "float", "bool", "neg", "zero"):
+                                continue
+                            if tname == "method-of-text" and vname not in ("str", "empty", "bytes"):
                                 continue
                             out.append((source, tname, vname, name))
             return out
